@@ -11,6 +11,17 @@ def main():
         print("setup: lake build failed")
         return 1
     print(f"setup: lake build ok in {time.time()-t0:.0f}s; driver at {DRIVER}: {os.path.exists(DRIVER)}")
+    import extract
+    if extract.main():
+        ok, log = lake_build([])
+        if not ok:
+            print(log[-3000:]); print("setup: lake build failed after regenerating Generated.lean"); return 1
+    try:
+        import c04
+        lib, dt = c04.ensure_cpp_ext()
+        print(f"setup: C++ unpack extension ready ({dt:.0f}s)")
+    except Exception as e:  # noqa
+        print("setup: WARNING cannot build the C++ unpack extension:", str(e)[-500:])
     bad = grep_forbidden()
     if bad:
         print("forbidden constructs:", bad)
